@@ -1,8 +1,18 @@
 // C36 — entity deletion follows the DDS preconditions.
-// Pattern A: a real DcpsDomainParticipant; a small entity tree built with the real create_user_defined_publisher /
-// create_user_defined_subscriber / create_topic plus DIRECTLY installed writers / readers (create_data_writer /
-// create_data_reader do not fit the solver, HARNESS_GUIDE), the shape of the tree and the handles passed to the
-// delete operation symbolic; ONE real delete_* (plus one follow-up operation on the deleted entity).
+// Pattern A: a real DcpsDomainParticipant; a small entity tree: topics through the real create_topic /
+// create_content_filtered_topic, publishers / subscribers / writers / readers installed DIRECTLY, bottom-up
+// (support_part1::make_writer / install_publisher_with: create_data_writer / create_data_reader do not fit the solver,
+// HARNESS_GUIDE; a push into a heap-resident entity's list makes symbolic execution explore realloc with a symbolic
+// size), the shape of the tree and the arguments of the delete operation symbolic; ONE real delete_*.
+//
+// NOT DECIDED (measured): delete_user_defined_publisher / delete_user_defined_subscriber / delete_data_writer /
+// delete_data_reader. All four remove the entity with `Vec::remove(i)` (participant_entity.rs remove_publisher /
+// remove_subscriber, publisher_methods.rs:157, subscriber_methods.rs:176) where `i` comes out of
+// `Iterator::position`; for symbolic execution `i` is symbolic (payload of an Option), so the tail move inside
+// Vec::remove is a `memmove` of SYMBOLIC size over 0.4-1.7 KB elements and the SAT encoding of the symbolic-size
+// byte_extract / byte_update exhausts 10 GB in propositional reduction (measured on the 456-byte matched-endpoint
+// entries of C16 with ONE element in the list; the entity structs are the same size or larger). The harnesses for
+// these four operations were therefore removed; what they asserted is listed in the family report.
 use super::support_part1 as s1;
 use super::support_participant as sp;
 use crate::dcps::dcps_domain_participant::participant_entity::DcpsDomainParticipant;
@@ -32,224 +42,8 @@ fn n_topic(p: &DcpsDomainParticipant) -> usize {
 }
 
 // @check props=C36 tier=quick
-// @desc delete_user_defined_publisher on a participant with one publisher holding 0 or 1 data writer, for every combination of (participant handle own/foreign, publisher handle known/unknown): PreconditionNotMet iff the participant handle is foreign or the (known) publisher still contains a writer, AlreadyDeleted iff the publisher handle is unknown, otherwise Ok; on every error the publisher list and its writer list are unchanged; after Ok the publisher is gone and both deleting it again and using it (get_publisher_qos) fail with AlreadyDeleted
-// @bounds one publisher (real create_user_defined_publisher), 0-1 writer; handles chosen among {valid, unknown}
-// @assume the data writer is installed directly with the state create_data_writer(QosKind::Default, no listener) + enable give it
-// @enc DcpsDomainParticipant::delete_user_defined_publisher
-// @enc DcpsDomainParticipant::get_publisher_qos
-#[kani::proof]
-#[kani::unwind(2)]
-#[kani::stub(critical_section::acquire, super::support_cs::cs_acquire)]
-#[kani::stub(critical_section::release, super::support_cs::cs_release)]
-fn c36_tree_delete_publisher() {
-    s1::link_drop_glue();
-    let cap = sp::Capture::new();
-    let mut p = sp::participant(&cap, 0);
-    let ph = s1::new_publisher(&mut p);
-    let has_writer: bool = kani::any();
-    if has_writer {
-        s1::install_writer(&mut p, 0, 0, "A", DataWriterQos::const_default());
-    }
-    let own: bool = kani::any();
-    let known: bool = kani::any();
-    let part_h = if own { *p.get_instance_handle() } else { unknown() };
-    let pub_h = if known { ph } else { unknown() };
-
-    let r = p.delete_user_defined_publisher(&part_h, &pub_h);
-
-    if !own {
-        assert!(is_precondition_not_met(&r), "C36: publisher deleted through a foreign participant is PreconditionNotMet");
-    } else if !known {
-        assert!(is_already_deleted(&r), "C36: unknown publisher handle is AlreadyDeleted");
-    } else if has_writer {
-        assert!(is_precondition_not_met(&r), "C36: publisher that still contains a data writer is PreconditionNotMet");
-    } else {
-        assert!(r.is_ok(), "C36: empty publisher is deleted");
-    }
-    if r.is_err() {
-        assert!(n_pub(&p) == 1, "C36: failed publisher deletion keeps the publisher");
-        assert!(p.domain_participant.user_defined_publisher_list[0].instance_handle == ph, "C36: failed deletion keeps the publisher identity");
-        assert!(
-            p.domain_participant.user_defined_publisher_list[0].data_writer_list.len() == has_writer as usize,
-            "C36: failed publisher deletion keeps its writers"
-        );
-    } else {
-        assert!(n_pub(&p) == 0, "C36: deleted publisher is removed");
-        let again = p.delete_user_defined_publisher(&part_h, &pub_h);
-        assert!(is_already_deleted(&again), "C36: deleting a deleted publisher is AlreadyDeleted");
-        let q = p.get_publisher_qos(&pub_h);
-        assert!(is_already_deleted(&q), "C36: operation on a deleted publisher is AlreadyDeleted");
-        core::mem::forget(q);
-    }
-    kani::cover!(own && known && has_writer, "publisher with a writer");
-    kani::cover!(r.is_ok(), "publisher deleted");
-    kani::cover!(own && !known, "unknown publisher");
-    core::mem::forget(r);
-    core::mem::forget(p);
-}
-
-// @check props=C36 tier=quick
-// @desc delete_user_defined_subscriber, mirror of c36_tree_delete_publisher: PreconditionNotMet iff foreign participant handle or the subscriber still contains a data reader; AlreadyDeleted iff unknown subscriber; errors change nothing; after Ok a second delete and get_subscriber_qos are AlreadyDeleted
-// @bounds one subscriber (real create_user_defined_subscriber), 0-1 reader; handles chosen among {valid, unknown}
-// @assume the data reader is installed directly with the state create_data_reader(QosKind::Default, no listener) + enable give it
-// @enc DcpsDomainParticipant::delete_user_defined_subscriber
-// @enc DcpsDomainParticipant::get_subscriber_qos
-#[kani::proof]
-#[kani::unwind(2)]
-#[kani::stub(critical_section::acquire, super::support_cs::cs_acquire)]
-#[kani::stub(critical_section::release, super::support_cs::cs_release)]
-fn c36_tree_delete_subscriber() {
-    s1::link_drop_glue();
-    let cap = sp::Capture::new();
-    let mut p = sp::participant(&cap, 0);
-    let sh = s1::new_subscriber(&mut p);
-    let has_reader: bool = kani::any();
-    if has_reader {
-        s1::install_reader(&mut p, 0, 0, "A", DataReaderQos::const_default());
-    }
-    let own: bool = kani::any();
-    let known: bool = kani::any();
-    let part_h = if own { *p.get_instance_handle() } else { unknown() };
-    let sub_h = if known { sh } else { unknown() };
-
-    let r = p.delete_user_defined_subscriber(&part_h, &sub_h);
-
-    if !own {
-        assert!(is_precondition_not_met(&r), "C36: subscriber deleted through a foreign participant is PreconditionNotMet");
-    } else if !known {
-        assert!(is_already_deleted(&r), "C36: unknown subscriber handle is AlreadyDeleted");
-    } else if has_reader {
-        assert!(is_precondition_not_met(&r), "C36: subscriber that still contains a data reader is PreconditionNotMet");
-    } else {
-        assert!(r.is_ok(), "C36: empty subscriber is deleted");
-    }
-    if r.is_err() {
-        assert!(n_sub(&p) == 1, "C36: failed subscriber deletion keeps the subscriber");
-        assert!(p.domain_participant.user_defined_subscriber_list[0].instance_handle == sh, "C36: failed deletion keeps the subscriber identity");
-        assert!(
-            p.domain_participant.user_defined_subscriber_list[0].data_reader_list.len() == has_reader as usize,
-            "C36: failed subscriber deletion keeps its readers"
-        );
-    } else {
-        assert!(n_sub(&p) == 0, "C36: deleted subscriber is removed");
-        let again = p.delete_user_defined_subscriber(&part_h, &sub_h);
-        assert!(is_already_deleted(&again), "C36: deleting a deleted subscriber is AlreadyDeleted");
-        let q = p.get_subscriber_qos(&sub_h);
-        assert!(is_already_deleted(&q), "C36: operation on a deleted subscriber is AlreadyDeleted");
-        core::mem::forget(q);
-    }
-    kani::cover!(own && known && has_reader, "subscriber with a reader");
-    kani::cover!(r.is_ok(), "subscriber deleted");
-    kani::cover!(own && !known, "unknown subscriber");
-    core::mem::forget(r);
-    core::mem::forget(p);
-}
-
-// @check props=C36 tier=quick
-// @desc delete_data_writer(publisher, writer) on a publisher with one writer, handles known/unknown: AlreadyDeleted iff the publisher or the writer handle is unknown (nothing changes), otherwise Ok and the writer list is empty; afterwards deleting the writer again is AlreadyDeleted and the now empty publisher deletes Ok (the parent becomes deletable)
-// @bounds one publisher (real create), one writer installed directly; handles chosen among {valid, unknown}
-// @assume the data writer is installed directly with the state create_data_writer + enable give it
-// @assume stub: announce_deleted_data_writer (SEDP dispose through DynamicData / XTypes serializer) is a no-op that forgets the writer
-// @enc DcpsDomainParticipant::delete_data_writer
-// @enc DcpsDomainParticipant::delete_user_defined_publisher
-#[kani::proof]
-#[kani::unwind(2)]
-#[kani::stub(critical_section::acquire, super::support_cs::cs_acquire)]
-#[kani::stub(critical_section::release, super::support_cs::cs_release)]
-#[kani::stub(crate::dcps::dcps_domain_participant::participant_entity::DcpsDomainParticipant::announce_deleted_data_writer, super::support_part1::announce_deleted_data_writer_stub)]
-fn c36_tree_delete_writer() {
-    s1::link_drop_glue();
-    let cap = sp::Capture::new();
-    let mut p = sp::participant(&cap, 0);
-    let ph = s1::new_publisher(&mut p);
-    let wh = s1::install_writer(&mut p, 0, 0, "A", DataWriterQos::const_default());
-    let pub_known: bool = kani::any();
-    let w_known: bool = kani::any();
-    let pub_h = if pub_known { ph } else { unknown() };
-    let w_h = if w_known { wh } else { unknown() };
-
-    let r = p.delete_data_writer(&pub_h, &w_h, &s1::rt1());
-
-    if pub_known && w_known {
-        assert!(r.is_ok(), "C36: existing data writer is deleted");
-        assert!(p.domain_participant.user_defined_publisher_list[0].data_writer_list.is_empty(), "C36: deleted writer is removed");
-        let again = p.delete_data_writer(&pub_h, &w_h, &s1::rt1());
-        assert!(is_already_deleted(&again), "C36: deleting a deleted data writer is AlreadyDeleted");
-        let own = *p.get_instance_handle();
-        let d = p.delete_user_defined_publisher(&own, &ph);
-        assert!(d.is_ok(), "C36: publisher is deletable once its writers are deleted");
-        assert!(n_pub(&p) == 0, "C36: publisher removed");
-        core::mem::forget(d);
-    } else {
-        assert!(is_already_deleted(&r), "C36: unknown publisher / writer handle is AlreadyDeleted");
-        assert!(n_pub(&p) == 1, "C36: failed writer deletion keeps the publisher");
-        assert!(p.domain_participant.user_defined_publisher_list[0].data_writer_list.len() == 1, "C36: failed writer deletion keeps the writer");
-        assert!(
-            p.domain_participant.user_defined_publisher_list[0].data_writer_list[0].writer.instance_handle == wh,
-            "C36: failed writer deletion keeps the writer identity"
-        );
-    }
-    kani::cover!(pub_known && w_known, "writer deleted");
-    kani::cover!(pub_known && !w_known, "unknown writer");
-    kani::cover!(!pub_known, "unknown publisher");
-    core::mem::forget(r);
-    core::mem::forget(p);
-}
-
-// @check props=C36 tier=quick
-// @desc delete_data_reader, mirror of c36_tree_delete_writer
-// @bounds one subscriber (real create), one reader installed directly; handles chosen among {valid, unknown}
-// @assume the data reader is installed directly with the state create_data_reader + enable give it
-// @assume stub: announce_deleted_data_reader (SEDP dispose through DynamicData / XTypes serializer) is a no-op that forgets the reader
-// @enc DcpsDomainParticipant::delete_data_reader
-// @enc DcpsDomainParticipant::delete_user_defined_subscriber
-#[kani::proof]
-#[kani::unwind(2)]
-#[kani::stub(critical_section::acquire, super::support_cs::cs_acquire)]
-#[kani::stub(critical_section::release, super::support_cs::cs_release)]
-#[kani::stub(crate::dcps::dcps_domain_participant::participant_entity::DcpsDomainParticipant::announce_deleted_data_reader, super::support_part1::announce_deleted_data_reader_stub)]
-fn c36_tree_delete_reader() {
-    s1::link_drop_glue();
-    let cap = sp::Capture::new();
-    let mut p = sp::participant(&cap, 0);
-    let sh = s1::new_subscriber(&mut p);
-    let rh = s1::install_reader(&mut p, 0, 0, "A", DataReaderQos::const_default());
-    let sub_known: bool = kani::any();
-    let r_known: bool = kani::any();
-    let sub_h = if sub_known { sh } else { unknown() };
-    let r_h = if r_known { rh } else { unknown() };
-
-    let r = p.delete_data_reader(&sub_h, &r_h, &s1::rt1());
-
-    if sub_known && r_known {
-        assert!(r.is_ok(), "C36: existing data reader is deleted");
-        assert!(p.domain_participant.user_defined_subscriber_list[0].data_reader_list.is_empty(), "C36: deleted reader is removed");
-        let again = p.delete_data_reader(&sub_h, &r_h, &s1::rt1());
-        assert!(is_already_deleted(&again), "C36: deleting a deleted data reader is AlreadyDeleted");
-        let own = *p.get_instance_handle();
-        let d = p.delete_user_defined_subscriber(&own, &sh);
-        assert!(d.is_ok(), "C36: subscriber is deletable once its readers are deleted");
-        assert!(n_sub(&p) == 0, "C36: subscriber removed");
-        core::mem::forget(d);
-    } else {
-        assert!(is_already_deleted(&r), "C36: unknown subscriber / reader handle is AlreadyDeleted");
-        assert!(n_sub(&p) == 1, "C36: failed reader deletion keeps the subscriber");
-        assert!(p.domain_participant.user_defined_subscriber_list[0].data_reader_list.len() == 1, "C36: failed reader deletion keeps the reader");
-        assert!(
-            p.domain_participant.user_defined_subscriber_list[0].data_reader_list[0].reader.instance_handle == rh,
-            "C36: failed reader deletion keeps the reader identity"
-        );
-    }
-    kani::cover!(sub_known && r_known, "reader deleted");
-    kani::cover!(sub_known && !r_known, "unknown reader");
-    kani::cover!(!sub_known, "unknown subscriber");
-    core::mem::forget(r);
-    core::mem::forget(p);
-}
-
-// @check props=C36 tier=quick
 // @desc delete_user_defined_topic(participant, name) on a participant with topic "A" and a publisher holding 0 or 1 writer on topic "A" or "B", name in {"A","Z"}, participant handle own/foreign: PreconditionNotMet iff foreign participant handle or (name "A" and a writer uses topic "A"); AlreadyDeleted iff the name is unknown; on every error the topic list is unchanged; after Ok the topic is gone and deleting it again is AlreadyDeleted
-// @bounds one topic (real create_topic), one publisher (real create), 0-1 writer installed directly with topic name "A" or "B"
+// @bounds one topic (real create_topic), one publisher with 0-1 writer (installed directly) on topic "A" or "B"
 // @assume the data writer is installed directly (a writer on topic "B" stands for a writer of another topic; its topic entity is not needed by the code under test)
 // @assume stub: TypeInformation::from(DynamicType) returns a fixed value (MD5 over XTypes-serialized type objects); stub: alloc::fmt::format returns an empty String (error texts are in no claim)
 // @enc DcpsDomainParticipant::delete_user_defined_topic
@@ -257,6 +51,7 @@ fn c36_tree_delete_reader() {
 #[kani::unwind(2)]
 #[kani::stub(critical_section::acquire, super::support_cs::cs_acquire)]
 #[kani::stub(critical_section::release, super::support_cs::cs_release)]
+#[kani::stub(tracing::level_filters::LevelFilter::current, super::support_qos::tracing_off)]
 #[kani::stub(<crate::xtypes::type_object::TypeInformation as core::convert::From<crate::xtypes::dynamic_type::DynamicType<'static>>>::from, super::support_participant::type_information_stub)]
 #[kani::stub(alloc::fmt::format, super::support_participant::fmt_format_stub)]
 fn c36_topic_delete_used_by_writer() {
@@ -264,12 +59,10 @@ fn c36_topic_delete_used_by_writer() {
     let cap = sp::Capture::new();
     let mut p = sp::participant(&cap, 0);
     let _th = s1::new_topic(&mut p, "A");
-    let _ph = s1::new_publisher(&mut p);
     let has_writer: bool = kani::any();
     let on_a: bool = kani::any();
-    if has_writer {
-        s1::install_writer(&mut p, 0, 0, if on_a { "A" } else { "B" }, DataWriterQos::const_default());
-    }
+    let w = if has_writer { Some(s1::make_writer(0, 0, if on_a { "A" } else { "B" }, DataWriterQos::const_default())) } else { None };
+    let _ph = s1::install_publisher_with(&mut p, w);
     let own: bool = kani::any();
     let known: bool = kani::any();
     let part_h = if own { *p.get_instance_handle() } else { unknown() };
@@ -305,7 +98,7 @@ fn c36_topic_delete_used_by_writer() {
 
 // @check props=C36 tier=quick
 // @desc delete_user_defined_topic with the topic used (or not) by a data READER: PreconditionNotMet iff a reader uses topic "A"; errors change nothing; Ok removes the topic
-// @bounds one topic (real create_topic), one subscriber (real create), 0-1 reader installed directly with topic name "A" or "B"
+// @bounds one topic (real create_topic), one subscriber with 0-1 reader (installed directly) on topic "A" or "B"
 // @assume the data reader is installed directly
 // @assume stub: TypeInformation::from(DynamicType) returns a fixed value; stub: alloc::fmt::format returns an empty String
 // @enc DcpsDomainParticipant::delete_user_defined_topic
@@ -313,6 +106,7 @@ fn c36_topic_delete_used_by_writer() {
 #[kani::unwind(2)]
 #[kani::stub(critical_section::acquire, super::support_cs::cs_acquire)]
 #[kani::stub(critical_section::release, super::support_cs::cs_release)]
+#[kani::stub(tracing::level_filters::LevelFilter::current, super::support_qos::tracing_off)]
 #[kani::stub(<crate::xtypes::type_object::TypeInformation as core::convert::From<crate::xtypes::dynamic_type::DynamicType<'static>>>::from, super::support_participant::type_information_stub)]
 #[kani::stub(alloc::fmt::format, super::support_participant::fmt_format_stub)]
 fn c36_topic_delete_used_by_reader() {
@@ -320,12 +114,10 @@ fn c36_topic_delete_used_by_reader() {
     let cap = sp::Capture::new();
     let mut p = sp::participant(&cap, 0);
     let _th = s1::new_topic(&mut p, "A");
-    let _sh = s1::new_subscriber(&mut p);
     let has_reader: bool = kani::any();
     let on_a: bool = kani::any();
-    if has_reader {
-        s1::install_reader(&mut p, 0, 0, if on_a { "A" } else { "B" }, DataReaderQos::const_default());
-    }
+    let rd = if has_reader { Some(s1::make_reader(0, 0, if on_a { "A" } else { "B" }, DataReaderQos::const_default())) } else { None };
+    let _sh = s1::install_subscriber_with(&mut p, rd);
     let own = *p.get_instance_handle();
 
     let r = p.delete_user_defined_topic(&own, String::from("A"));
@@ -349,53 +141,44 @@ fn c36_topic_delete_used_by_reader() {
     core::mem::forget(p);
 }
 
-fn contained(p: &mut DcpsDomainParticipant) -> (bool, bool, bool) {
-    // publisher with 0-1 writer, subscriber with 0-1 reader (two real creates), shape symbolic
-    let has_pub: bool = kani::any();
+fn contained(p: &mut DcpsDomainParticipant) -> (bool, bool) {
+    // one publisher with 0-1 writer, one subscriber with 0-1 reader, built bottom-up; the leaves are symbolic
     let has_writer: bool = kani::any();
-    let has_sub: bool = kani::any();
     let has_reader: bool = kani::any();
-    if has_pub {
-        s1::new_publisher(p);
-        if has_writer {
-            s1::install_writer(p, 0, 0, "A", DataWriterQos::const_default());
-        }
-    }
-    if has_sub {
-        s1::new_subscriber(p);
-        if has_reader {
-            s1::install_reader(p, 0, 0, "A", DataReaderQos::const_default());
-        }
-    }
-    (has_pub, has_sub, (has_pub && has_writer) || (has_sub && has_reader))
+    let w = if has_writer { Some(s1::make_writer(0, 0, "A", DataWriterQos::const_default())) } else { None };
+    s1::install_publisher_with(p, w);
+    let r = if has_reader { Some(s1::make_reader(0, 0, "A", DataReaderQos::const_default())) } else { None };
+    s1::install_subscriber_with(p, r);
+    (has_writer, has_reader)
 }
 
 // @check props=C36 tier=quick
-// @desc delete_participant_contained_entities on a participant with 0-1 publisher (0-1 writer) and 0-1 subscriber (0-1 reader): returns Ok, afterwards the publisher and subscriber lists are empty and is_participant_empty() holds (the participant is deletable by the factory's precondition); before the call is_participant_empty() holds iff the tree is empty
-// @bounds 0-1 publisher with 0-1 writer, 0-1 subscriber with 0-1 reader (shape symbolic); no user topic, no content-filtered topic (see the __known / __rest pair)
-// @assume writers / readers installed directly; stub: announce_deleted_data_writer / announce_deleted_data_reader (SEDP dispose through DynamicData) are no-ops
+// @desc delete_participant_contained_entities on a participant with one publisher (0-1 writer) and one subscriber (0-1 reader): before the call is_participant_empty() is false (DcpsParticipantFactory::delete_participant would answer PreconditionNotMet); the call returns Ok, afterwards the publisher and subscriber lists are empty and is_participant_empty() holds (the participant is deletable by the factory's precondition)
+// @bounds one publisher with 0-1 writer, one subscriber with 0-1 reader (leaves symbolic); no user topic, no content-filtered topic (see the __known / __rest pair)
+// @assume publisher / subscriber / writers / readers installed directly (bottom-up) with the state the create_* calls give them; stub: announce_deleted_data_writer / announce_deleted_data_reader (SEDP dispose through DynamicData) are no-ops
 // @enc DcpsDomainParticipant::delete_participant_contained_entities
 // @enc DcpsDomainParticipant::is_participant_empty
 #[kani::proof]
 #[kani::unwind(2)]
 #[kani::stub(critical_section::acquire, super::support_cs::cs_acquire)]
 #[kani::stub(critical_section::release, super::support_cs::cs_release)]
+#[kani::stub(tracing::level_filters::LevelFilter::current, super::support_qos::tracing_off)]
 #[kani::stub(crate::dcps::dcps_domain_participant::participant_entity::DcpsDomainParticipant::announce_deleted_data_writer, super::support_part1::announce_deleted_data_writer_stub)]
 #[kani::stub(crate::dcps::dcps_domain_participant::participant_entity::DcpsDomainParticipant::announce_deleted_data_reader, super::support_part1::announce_deleted_data_reader_stub)]
 fn c36_contained_entities_tree() {
     s1::link_drop_glue();
     let cap = sp::Capture::new();
     let mut p = sp::participant(&cap, 0);
-    let (has_pub, has_sub, has_leaf) = contained(&mut p);
-    assert!(p.is_participant_empty() == (!has_pub && !has_sub), "C36: participant is empty iff it contains no entity");
+    let (has_writer, has_reader) = contained(&mut p);
+    assert!(!p.is_participant_empty(), "C36: a participant that contains a publisher and a subscriber is not empty (not deletable)");
 
     let r = p.delete_participant_contained_entities(&s1::rt1());
 
     assert!(r.is_ok(), "C36: delete_contained_entities succeeds");
     assert!(n_pub(&p) == 0 && n_sub(&p) == 0, "C36: delete_contained_entities removes every publisher and subscriber");
     assert!(p.is_participant_empty(), "C36: delete_contained_entities leaves the participant empty (deletable)");
-    kani::cover!(has_pub && has_sub && has_leaf, "publisher and subscriber with endpoints");
-    kani::cover!(!has_pub && !has_sub, "already empty");
+    kani::cover!(has_writer && has_reader, "publisher and subscriber with endpoints");
+    kani::cover!(!has_writer && !has_reader, "empty publisher and subscriber");
     core::mem::forget(r);
     core::mem::forget(p);
 }
@@ -435,6 +218,7 @@ fn contained_topics(with_cft: bool) {
 #[kani::unwind(2)]
 #[kani::stub(critical_section::acquire, super::support_cs::cs_acquire)]
 #[kani::stub(critical_section::release, super::support_cs::cs_release)]
+#[kani::stub(tracing::level_filters::LevelFilter::current, super::support_qos::tracing_off)]
 #[kani::stub(<crate::xtypes::type_object::TypeInformation as core::convert::From<crate::xtypes::dynamic_type::DynamicType<'static>>>::from, super::support_participant::type_information_stub)]
 #[kani::stub(alloc::fmt::format, super::support_participant::fmt_format_stub)]
 fn c36_contained_entities_topics__known() {
@@ -453,6 +237,7 @@ fn c36_contained_entities_topics__known() {
 #[kani::unwind(2)]
 #[kani::stub(critical_section::acquire, super::support_cs::cs_acquire)]
 #[kani::stub(critical_section::release, super::support_cs::cs_release)]
+#[kani::stub(tracing::level_filters::LevelFilter::current, super::support_qos::tracing_off)]
 #[kani::stub(<crate::xtypes::type_object::TypeInformation as core::convert::From<crate::xtypes::dynamic_type::DynamicType<'static>>>::from, super::support_participant::type_information_stub)]
 #[kani::stub(alloc::fmt::format, super::support_participant::fmt_format_stub)]
 fn c36_contained_entities_topics__rest() {
